@@ -409,6 +409,23 @@ def check_json_pipeline(ctx, payloads):
         if p and out.count(p) != 1:
             ctx.violation("trusted-payload-not-verbatim", "JSON-mode pipeline: trusted payload %r occurs %d times" % (p[:60], out.count(p)), dict(wit, output=out[:800]))
             return False
+    # several outputs written one after the other into one page (each ends with its serialised dependencies); the next output is
+    # trusted markup that may start with a line break of its own: taking the serialised scripts out removes nothing else
+    for lead in ("\n", "\r\n", "\n\n", " \n", "", "\r"):
+        second = str(ht.HTML(lead + "<pre>\nsecond output " + (payloads[0] if payloads else "") + "</pre>"))
+        page = "<html><head>@@DEPS@@</head><body>" + s_ + second + s_ + lead + "tail</body></html>"
+        ctx.count("oracle.verbatim_json_pipeline_sequence")
+        try:
+            got = ht.HTMLTextDocument(page, deps_replace_pattern="@@DEPS@@").render()["html"]
+        except Exception as e:
+            ctx.violation("render-raises", "JSON-mode pipeline raised %r" % e, wit)
+            return False
+        direct = tag.render()["html"]
+        body = got[got.index("<body>") + 6:got.rindex("</body>")]
+        if body != direct + second + direct + lead + "tail":
+            ctx.violation("trusted-payload-not-verbatim", "JSON-mode pipeline: text that follows a serialised dependency (starting with %r) is not kept byte for byte" % lead,
+                          dict(wit, lead=lead, got=body[-300:], want=(direct + second + direct + lead + "tail")[-300:]))
+            return False
     return True
 
 
@@ -446,6 +463,18 @@ def _run(ctx):
     ctx.require("oracle.placement", 200)
     ctx.require("oracle.algebra", 500)
     ctx.require("oracle.render_equiv", 500)
+    # raw-text elements and trusted markup in child lists far longer than any fast-path threshold
+    if ctx.shard == 0:
+        ids0 = lg.Ids()
+        for kind in ("script", "style"):
+            for n_, ws_ in ((520, True), (700, False), (2100, True)):
+                kids = [{"k": "text", "s": ids0.next("p") + " if (a<b && c>d) {}"} for _ in range(n_)]
+                kids[n_ // 2] = {"k": "html", "s": ids0.next("h") + "<!-- & -->"}
+                check_tree(ctx, gen.TAG("div", gen.TAG(kind, *kids, ws=ws_, via_fn=False), ws=True), 0, "\n", "get_html_string")
+                ctx.count("very_long_raw_text_elements")
+        kids = [({"k": "html", "s": ids0.next("h") + "<b>&amp;</b>"} if k % 2 else {"k": "obj", "s": ids0.next("o") + "<i>&lt;</i>"}) for k in range(1300)]
+        check_tree(ctx, gen.TAG("section", *kids, ws=True), 1, "\r\n", "get_html_string")
+        check_tree(ctx, gen.TAG("span", *kids[:700], ws=False), 0, "\n", "str")
     # deterministic position matrix for each trusted kind
     ids = lg.Ids()
     i = 0
